@@ -386,3 +386,12 @@ func (a *Alphabet) readKinds(seq []uint8) string {
 	}
 	return ks
 }
+
+func (a *Alphabet) hasReads(seq []uint8) bool {
+	for _, x := range seq {
+		if a.Ops[x].IsRead() {
+			return true
+		}
+	}
+	return false
+}
